@@ -42,9 +42,9 @@ class Prov:
             elif isinstance(n, ast.AugAssign) and isinstance(n.target, ast.Name):
                 add(n.target.id, "aug", n, n)
             elif isinstance(n, ast.Expr) and isinstance(n.value, ast.Call) and isinstance(n.value.func, ast.Attribute) \
-                    and isinstance(n.value.func.value, ast.Name) and n.value.func.attr in ("append", "extend") \
+                    and isinstance(n.value.func.value, ast.Name) and n.value.func.attr in ("append", "extend", "update") \
                     and len(n.value.args) == 1 and not n.value.keywords:
-                # xs.append(v)  ==  xs += [v] ;  xs.extend(ys)  ==  xs += ys
+                # xs.append(v)  ==  xs += [v] ;  xs.extend(ys)  ==  xs += ys ;  h.update(b)  ==  h += b  (stream fed to a hash object)
                 v = n.value.args[0]
                 rhs = ast.List(elts=[v], ctx=ast.Load()) if n.value.func.attr == "append" else v
                 syn = ast.AugAssign(target=ast.Name(id=n.value.func.value.id, ctx=ast.Store()), op=ast.Add(), value=rhs)
